@@ -114,6 +114,20 @@ def des_cases(rng, prep, tids, sz) -> typing.List[campaign.Case]:
             full = e + b'\xff\xa5'
             for n in range(0, min(len(full), ext + 2) + 1):
                 data.append((full[:n], ['every_truncation']))
+        # delimiter headers that announce 1..4 bytes more than follow (and exactly what follows) -- at every header of two encodings
+        for v, e in pairs_of[tid][:3]:
+            try:
+                lay = valgen.layout(prep.db, tid, v)
+            except Exception:  # noqa: BLE001
+                lay = []
+            for (o, w, k) in lay:
+                if k != 'header' or o % 8 or o // 8 + 4 > len(e):
+                    continue
+                follow = len(e) - (o // 8 + 4)
+                for extra in (0, 1, 2, 3, 4, 5):
+                    m = bytearray(e)
+                    m[o // 8:o // 8 + 4] = (follow + extra).to_bytes(4, 'little')
+                    data.append((bytes(m), ['header_plus_%d_of_remaining' % extra]))
         seen = set()
         for b, tags in data:
             if b in seen:
@@ -301,7 +315,18 @@ def main(chk: core.Check, replay: typing.Optional[str] = None) -> int:
             stats['cases'] = stats.get('cases', 0) + len(cases)
             stats['wall']['prepare_r%d' % rnd] = round(time.time() - t0, 1)
             t0 = time.time()
-            campaign.build_targets(prep, matrix(chk.tier), core.REPO, max_workers=6)
+            ovr_tgt = c04_probe.OvrCTarget({'target_endianness': 'little', 'sanitize': True})
+            with concurrent.futures.ThreadPoolExecutor(max_workers=1) as ovx:
+                ovr_job = ovx.submit(ovr_tgt.build, prep.ns_dirs, prep.db, os.path.join(rwork, 'build-c-override-on'), core.REPO)
+                campaign.build_targets(prep, matrix(chk.tier), core.REPO, max_workers=5)
+                try:
+                    ok_o, log_o = ovr_job.result()
+                except Exception as ex:  # noqa: BLE001
+                    ok_o, log_o = False, 'runner raised %r' % (ex,)
+            if ok_o:
+                prep.targets.append(('c[override_option_on,little,sanitize]', ovr_tgt))
+            else:
+                prep.build_failures.append(('c[override_option_on,little,sanitize]', log_o[-3000:]))
             stats['wall']['build_r%d' % rnd] = round(time.time() - t0, 1)
             for lab, logtxt in prep.build_failures:
                 failures.append({'kind': 'build-failure', 'target': lab, 'log': logtxt, 'files': spec['files']})
@@ -401,6 +426,7 @@ def main(chk: core.Check, replay: typing.Optional[str] = None) -> int:
             rep = {k: v for k, v in f.items() if not k.startswith('_')}
             rep.update(small)
             rep['broken'] = broken
+            rep.pop('options', None) if f.get('label', '').startswith('c[override_option_on') else None
             chk.violation(rep, found_input=True)
             reported = True
             break
